@@ -314,6 +314,7 @@ func checkC09(p *Prog, r *Report) {
 	}
 
 	checkIOErrorSticky(p, r)
+	checkTopDirScan(p, r)
 
 	// ---- REMOVE-GATES ----
 	r.Rule("C09/REMOVE-GATES", "every (*os.Root).RemoveAll in package receiver sits in a WalkDir callback, is dominated by findInFileList(list, path)==false for the same path it removes, and on every call chain by IOErrors>0 == false and DeleteMode == true; IOErrors is stored only from the wire", 5)
